@@ -246,6 +246,13 @@ fn run_selftest(job: &Value) {
         let line = line.unwrap();
         let v: Value = match serde_json::from_str(&line) { Ok(x) => x, Err(_) => continue };
         let (kind, op) = (v["kind"].as_str().unwrap(), v["op"].as_str().unwrap());
+        if kind == "dbin" || kind == "cbin" {
+            n += 1;
+            let ok = selftest_dec_cpx(kind, op, &v);
+            if !ok { bad += 1; if first_bad.len() < 5 { first_bad.push(line.clone()); } }
+            else if samples.len() < 4 && n % 9973 == 1 { samples.push(v.clone()); }
+            continue;
+        }
         let (a, b, w) = (v["a"].as_i64().unwrap() as i128, v["b"].as_i64().unwrap() as i128, v["w"].as_u64().unwrap() as u32);
         let r = &v["r"];
         n += 1;
@@ -296,6 +303,36 @@ fn run_selftest(job: &Value) {
     let out = json!({"vectors": n, "disagreements": bad, "first": first_bad, "samples": samples});
     std::fs::write(job["stats"].as_str().unwrap(), out.to_string()).unwrap();
     if bad > 0 { eprintln!("ref-selftest: {} of {} vectors disagree, e.g. {:?}", bad, n, first_bad); std::process::exit(3); }
+}
+
+/// vectors of spec/MCDecCpx.tla: the decimal interpreter instantiated at the specification's toy format, the complex pair arithmetic
+fn selftest_dec_cpx(kind: &str, op: &str, v: &Value) -> bool {
+    use refsem::bignum::BigInt;
+    use refsem::decsem::{normalize, set_toy_format, DecSem, DV};
+    use refsem::{Sem, Stop};
+    let r = &v["r"];
+    if kind == "cbin" {
+        let z = |x: &Value| (x["re"].as_i64().unwrap() as f64, x["im"].as_i64().unwrap() as f64);
+        let (a, b) = (z(&v["a"]), z(&v["b"]));
+        let got = match op { "add" => refsem::cpxsem::add(a, b), "sub" => refsem::cpxsem::sub(a, b), _ => refsem::cpxsem::mul(a, b) };
+        // the Sem interface must agree with the free functions too
+        let s = refsem::cpxsem::CpxSem::new((0.0, 0.0));
+        let via = s.bin(op, a, b);
+        return got == z(r) && matches!(via, Ok(w) if w == got);
+    }
+    set_toy_format(v["p"].as_u64().unwrap() as u32, v["s"].as_u64().unwrap() as u32);
+    let d = |x: &Value| DV::Dec { c: BigInt::from_i128(x["c"].as_i64().unwrap() as i128), s: x["s"].as_u64().unwrap() as u32 };
+    let sem = DecSem::new(DV::Dec { c: BigInt::from_i128(0), s: 0 });
+    let got = sem.bin(op, d(&v["a"]), d(&v["b"]));
+    let ok = match (r["k"].as_str().unwrap(), &got) {
+        ("ok", Ok(DV::Dec { c, s })) => { let (c1, s1) = normalize(c, *s); c1 == BigInt::from_i128(r["n"].as_i64().unwrap() as i128) && s1 as u64 == r["s"].as_u64().unwrap() }
+        ("quot", Ok(DV::Quot { n, d })) => n.mul(&BigInt::from_i128(r["d"].as_i64().unwrap() as i128)) == d.mul(&BigInt::from_i128(r["n"].as_i64().unwrap() as i128)),
+        ("err", Err(Stop::Err(_))) => true,
+        ("unspec", Err(Stop::Unspec(_))) => true,
+        _ => false,
+    };
+    refsem::decsem::set_real_format();
+    ok
 }
 
 fn main() {
